@@ -1698,10 +1698,11 @@ func (c *Ctx) lenVarOf(v ssa.Value, f *ssa.Function, lc *linCtx) string {
 	if cv, ok := v.(*ssa.Convert); ok && (isByteLike(cv.X.Type()) && isByteLike(cv.Type())) {
 		return c.lenVarOf(cv.X, f, lc)
 	}
+	v = c.canonLoad(v)
 	name := ""
 	eachInstr(f, func(in ssa.Instruction) {
 		if call, ok := in.(*ssa.Call); ok {
-			if b, ok := call.Call.Value.(*ssa.Builtin); ok && b.Name() == "len" && call.Call.Args[0] == v {
+			if b, ok := call.Call.Value.(*ssa.Builtin); ok && b.Name() == "len" && c.canonLoad(call.Call.Args[0]) == v {
 				name = lc.varName(call)
 			}
 		}
